@@ -38,6 +38,8 @@ pub const TYPES: &[TypeMap] = &[
     TypeMap { rust: "SemverErrorKind", lean: "Semver.EKind" },
     TypeMap { rust: "Extras", lean: "Semver.Gen.Extras" },
     TypeMap { rust: "char", lean: "Char" },
+    // the type parameter of `SemverParseError<I>`: the crate only instantiates it with `&str`
+    TypeMap { rust: "I", lean: "(List Char)" },
 ];
 
 /// tuple structs with one field that the model represents by that field
@@ -203,6 +205,11 @@ pub const ITEMS: &[Item] = &[
     Closure { func: "partial", idx: 0, lean: "Semver.Gen.partial_table", captures: &[], params: &["Semver.Partial"], ret: "(Option Semver.BoundSet)" },
     Closure { func: "tilde", idx: 0, lean: "Semver.Gen.tilde_table", captures: &[], params: &["(Option (List Char) × Semver.Partial)"], ret: "(Option Semver.BoundSet)" },
     Closure { func: "caret", idx: 0, lean: "Semver.Gen.caret_table", captures: &[], params: &["Semver.Partial"], ret: "(Option Semver.BoundSet)" },
+    // ---- how the crate's error type takes part in winnow's error handling (what SemverGen/Winnow.lean assumes)
+    Method { ty: "SemverParseError", tr: "ParserError<I>", name: "from_error_kind" },
+    Method { ty: "SemverParseError", tr: "ParserError<I>", name: "append" },
+    Method { ty: "SemverParseError", tr: "AddContext<I>", name: "add_context" },
+    Method { ty: "SemverParseError", tr: "FromExternalError<&'astr,SemverParseError<&'astr>>", name: "from_external_error" },
     // ---- the winnow parsers of src/lib.rs
     Closure { func: "number", idx: 0, lean: "Semver.Gen.number_check", captures: &["copied"], params: &["(List Char)", "(List Char)"], ret: "(Except Semver.PErr Nat)" },
     Parser { name: "number" },
@@ -247,8 +254,6 @@ pub const BY_CORRESPONDENCE_ONLY: &[&str] = &[
     "SemverError::code", "SemverError::severity", "SemverError::help", "SemverError::url",
     "SemverError::source_code", "SemverError::labels", "SemverError::input", "SemverError::span",
     "SemverError::offset", "SemverError::kind", "SemverError::location",
-    "SemverParseError::from_error_kind", "SemverParseError::append", "SemverParseError::add_context",
-    "SemverParseError::from_external_error",
     // entry points that wrap the winnow parsers, serde, FromStr
     "Version::serialize", "Version::deserialize", "Version::from_str", "Version::partial_cmp",
     "Range::serialize", "Range::deserialize", "Range::from_str", "Bound::partial_cmp",
